@@ -280,10 +280,27 @@ def build_harness(bin="c11", profile="release", rustflags=None):
         env = {"CARGO_TARGET_DIR": TARGET}
         if rustflags:
             env["RUSTFLAGS"] = rustflags
+        prof_dir = os.path.join(TARGET, profile if profile == "release" else "debug")
+
+        def lib_is_ours():
+            # libcddl.rlib carries no hash in its name: a build of ANOTHER checkout of the crate into the same target
+            # directory silently replaces it while cargo still reports "Fresh". The dep-info names the sources used.
+            d = os.path.join(prof_dir, "deps", "cddl.d")
+            try:
+                txt = open(d).read()
+            except FileNotFoundError:
+                return True
+            return (" " + REPO + "/src/lib.rs") in txt
+
+        if not lib_is_ours():
+            sh(["cargo", "clean", "--offline", "-p", "cddl"] + (["--release"] if profile == "release" else []), cwd=h, timeout=300, env=env)
         rc, out = sh(cmd, cwd=h, timeout=1800, env=env)
+        if rc == 0 and not lib_is_ours():
+            sh(["cargo", "clean", "--offline", "-p", "cddl"] + (["--release"] if profile == "release" else []), cwd=h, timeout=300, env=env)
+            rc, out = sh(cmd, cwd=h, timeout=1800, env=env)
         if rc != 0:
             raise RuntimeError("harness build failed:\n" + out[-4000:])
-    return os.path.join(TARGET, profile if profile == "release" else "debug", bin)
+    return os.path.join(prof_dir, bin)
 
 
 def build_cli(profile="release"):
